@@ -41,13 +41,15 @@ def seq_expr(base, n, variant=0):
     raise ValueError(base)
 
 
-def base_values(ck, base, lengths, mutable_only=False):
-    """argument expressions for the sequence parameter"""
+def base_values(ck, base, lengths, mutable_only=False, item_op=False):
+    """argument expressions for the sequence parameter. None is passed to typed parameters except for integer
+    indexing of str/bytes/bytearray-typed ones: with the default `nonecheck=False` that access is documented as
+    unchecked (it reads through the None object), so it is outside the statement (reported to C36 separately)."""
     out = []
     if base == 'object':
         kinds = MUTABLE[:2] if mutable_only else ['list', 'tuple', 'str', 'bytes', 'bytearray']
         for k in kinds:
-            for n in lengths:
+            for n in (lengths if not ck.quick else [0, 3, 8]):
                 out.append(seq_expr(k, n))
         if mutable_only:
             out += ['(10, 11, 12)', "'abc'", "b'abc'"]          # immutable: TypeError expected
@@ -59,10 +61,11 @@ def base_values(ck, base, lengths, mutable_only=False):
         out.append(seq_expr(base, n))
     if base == 'str':
         for v in ((1, 2, 3) if not ck.quick else (1, 3)):
-            for n in lengths:
+            for n in (lengths if not ck.quick else [2, 8]):
                 if n:
                     out.append(seq_expr(base, n, v))
-    out.append('None')
+    if not (item_op and base in ('str', 'bytes', 'bytearray')):
+        out.append('None')
     return out
 
 
@@ -124,7 +127,7 @@ def gen(ck):
     """list of Fn"""
     fns = []
     quick = ck.quick
-    lengths = [0, 1, 2, 3, 5, 8] if quick else list(range(9))
+    lengths = [0, 1, 2, 3, 8] if quick else list(range(9))
     rng = ck.rng('c15')
     n = [0]
 
@@ -154,7 +157,7 @@ def gen(ck):
                                               'unsigned long long', 'size_t', 'short', 'long long']
     for op, body, bases, vals in item_ops:
         for base in bases:
-            svals = base_values(ck, base, lengths, mutable_only=(op != 'get'))
+            svals = base_values(ck, base, lengths, mutable_only=(op != 'get'), item_op=True)
             extra_pyx = ', v' if op == 'set' else ''
             for ct in ctypes:
                 lo, hi = CTYPES[ct]
@@ -205,14 +208,16 @@ def gen(ck):
                         pp = ''.join(', %s %s' % (bk, x) for x in names)
                     f = new(op, base, bk, decl(base) + pp + extra, 's' + ''.join(', ' + x for x in names) + extra,
                             body % form, form=form)
+                    full = (not quick) or (bk == 'object' and base in ('list', 'str', 'object') and op == 'sliceget')
+                    red2 = [-10, -9, -4, -3, -2, -1, 0, 1, 2, 3, 4, 8, 9, 10]
                     if bk == 'object':
-                        bvals = object_bounds(ck, small if op == 'sliceget' else red)
+                        bvals = object_bounds(ck, (small if full else red2) if op == 'sliceget' else red)
                     elif bk == 'none':
                         bvals = []
                     else:
                         lo, hi = CTYPES[bk]
-                        bvals = [repr(v) for v in (small if op == 'sliceget' else red) + [lo, hi, lo + 1, hi - 1]
-                                 if lo <= v <= hi]
+                        bvals = [repr(v) for v in ((small if full else red2) if op == 'sliceget' else red) +
+                                 [lo, hi, lo + 1, hi - 1] if lo <= v <= hi]
                     if len(names) == 2:
                         simple = [b for b in bvals if re.match(r'^-?\d+$|^None$', b) and (b == 'None' or abs(int(b)) <= 10)]
                         special = [b for b in bvals if b not in simple]
@@ -250,7 +255,7 @@ def gen(ck):
     # ---- extended slices
     steps = ['None', '1', '-1', '2', '-2', '3', '-3', '0']
     if quick:
-        tri_small = [-10, -3, -1, 0, 1, 2, 4, 10]
+        tri_small = [-10, -2, -1, 0, 1, 3, 10]
     else:
         tri_small = list(range(-10, 11))
     tri_vals = [repr(v) for v in tri_small] + ['None']
@@ -335,7 +340,11 @@ def classify(f, case, exp, got):
     gk = got[0] + ':' + (got[1][0] if got[0] == 'ok' else got[1])
     bt = type(args[0]).__name__ if args else '?'
     slicing = f.op.startswith('slice')
-    if slicing and huge and f.base != 'object' and got[0] == 'exc' and got[1] == 'OverflowError' and exp[0] == 'ok':
+    if f.kind == 'const' and f.form == 'huge':
+        huge = True
+    if slicing and huge and f.base != 'object' and got[0] == 'exc' and got[1] == 'OverflowError' \
+            and not (exp[0] == 'exc' and exp[1] == 'OverflowError'):
+        # bound >= 2**63 (or < -2**63) reaches a plain Py_ssize_t conversion instead of the clamping slice protocol
         return 'huge-slice-bound-overflow:%s' % f.base
     feat = 'huge' if huge else 'non-index' if nonint else 'index-object' if viaobj else 'plain-int'
     same_outcome = (exp[0] == got[0] == 'ok')
@@ -372,7 +381,7 @@ def main(ck):
     helpers = {}
     failed = 0
     nontrivial_funcs = set()
-    judged_cases_nontrivial = 0
+    judged_nontrivial = 0
     compare = {'log': False, 'exc_args': False, 'post_args': True}
     for mname, inf in info.items():
         if not inf['ok']:
@@ -417,6 +426,9 @@ def main(ck):
                                                     'stderr': c['stderr'], 'compare': compare, 'setup': SETUP})
         for ft in res.fatal:
             ck.inconclusive_if(True, 'driver failed for %s: %s' % (mname, str(ft)[-300:]))
+        if not res.fatal:
+            lost = {(c['case']['f'], c['case']['a']) for c in res.crashes}
+            judged_nontrivial += len({(c['f'], c['a']) for f in mf if f.name in nontrivial_funcs for c in f.cases} - lost)
     # reach: every helper family named by DESIGN R must be present in some judged function
     fam = {'GetItemInt': 0, 'SetItemInt': 0, 'DelItemInt': 0, 'PyObject_GetSlice': 0, 'PyUnicode_Substring': 0,
            'PyObject_SetSlice': 0, 'PyObject_DelSlice': 0, 'GetSlice': 0}
@@ -430,10 +442,8 @@ def main(ck):
     for op in ('get', 'set', 'del', 'sliceget', 'sliceset', 'slicedel'):
         ck.inconclusive_if(op not in ops_seen, 'operation %s was not observed' % op)
     ck.inconclusive_if(failed > 0, '%d module(s) failed to build' % failed)
-    nt_cases = sum(len(f.cases) for f in fns if f.name in nontrivial_funcs and info[fmap[f.name][0]]['ok'])
     return ck.finish(
-        total_n, len({(c['f'], c['a']) for f in fns if f.name in nontrivial_funcs and info[fmap[f.name][0]]['ok']
-                      for c in f.cases}),
+        total_n, judged_nontrivial,
         'one function per (operation, base type, index typing[, slice form / constant]); each is called on sequences of '
         'lengths %s (str of kinds 1/2/4, None, and for untyped bases also subclasses/mappings) x index values in '
         '[-10, 10] + C type bounds + +-2**63/2**64 + __index__ objects + non-indices; C-typed parameters only get '
@@ -444,7 +454,6 @@ def main(ck):
         extra={'functions': len(fns), 'functions_reaching_helper': len(nontrivial_funcs), 'modules': len(info),
                'helpers_reached': dict(sorted(helpers.items())), 'helper_families': fam,
                'cells': len(cells), 'cell_counts_top': dict(sorted(cells.items(), key=lambda kv: -kv[1])[:40]),
-               'nontrivial_cases': nt_cases,
                'outcome_hist_top': dict(sorted(hist.items(), key=lambda kv: -kv[1])[:40]),
                'outcome_classes': _outcomes(hist)},
         assumptions=['CPython 3.12.1 executing the untyped function bodies is the reference',
